@@ -10,7 +10,7 @@
     Numbers: a float64 field holds the DECIMAL of the document ([dec]); wherever Go looks at the
     float64 (comparison, validation, conversion to uint, division) the model takes its binary64
     image [f64_dec].  Tile addressing (C15) is stated over exact rationals. *)
-From Coq Require Import ZArith QArith String Ascii List Bool.
+From Coq Require Import ZArith QArith Qround String Ascii List Bool.
 From Texel Require Import Tms.Json.
 From Texel.Gen Require Import ConstsGen TmsData.
 Import ListNotations.
@@ -760,7 +760,7 @@ Definition qpoint (p : dec * dec) : Q * Q := (dq (fst p), dq (snd p)).
 Definition tileSpanX (m : tileMatrix) : Q := (inject_Z (tm_tileWidth m) * dq (tm_cellSize m))%Q.
 Definition tileSpanY (m : tileMatrix) : Q := (inject_Z (tm_tileHeight m) * dq (tm_cellSize m))%Q.
 
-Definition qfloor (q : Q) : Z := Qnum q / Zpos (Qden q).
+Definition qfloor (q : Q) : Z := Qfloor q.
 
 (** FromNative for one matrix; [o] = point of origin in x,y order *)
 Definition fromNativeTM (m : tileMatrix) (o : Q * Q) (pt : Q * Q) : option (Z * Z) :=
